@@ -231,6 +231,9 @@ func JSONDoc(t *rapid.T, lim Limits) *refenc.JNode {
 	if rapid.IntRange(0, 19).Draw(t, "jwide") == 0 {
 		return jsonWide(t, lim)
 	}
+	if rapid.IntRange(0, 24).Draw(t, "jempty") == 0 {
+		return &refenc.JNode{K: refenc.JNull, Empty: true} // a zero-length value: the null literal
+	}
 	budget := rapid.IntRange(1, 150).Draw(t, "jbudget")
 	root := jsonNode(t, 0, &budget, lim)
 	if root.K == refenc.JObject || root.K == refenc.JArray {
